@@ -241,3 +241,55 @@ func genC05Join(rt *rapid.T) *C05Join {
 func TestC05Join(t *testing.T) {
 	rapidCheck(t, "C05Join", func(rt *rapid.T) interface{} { return genC05Join(rt) })
 }
+
+// ---- C05Typed ------------------------------------------------------------------------
+
+var c05TypedKinds = []string{"str", "nstr", "int", "nint", "regstr", "regstringer", "regint", "regstruct", "svstr", "svint", "svsstringer", "svstringer", "svstruct",
+	"SafeString", "SafeInt", "sstringer", "serr", "stringer", "istringer", "f64", "embsafe", "structblank", "safe", "unsafe"}
+
+func genC05Typed(rt *rapid.T) *C05Typed {
+	s := &C05Typed{Shape: pick(rt, "shape", []string{"slice", "slice", "array", "map", "struct", "pstruct", "rvslice"})}
+	for _, k := range append(append([]string{}, regKindsAll...), "str", "int") {
+		if rapid.IntRange(0, 2).Draw(rt, "reg") == 0 {
+			s.Reg = append(s.Reg, k)
+		}
+	}
+	vc := &valConfig{maxDepth: 1}
+	leaf := func(k string) *Val {
+		switch k {
+		case "int", "nint", "regint", "svint", "SafeInt", "istringer":
+			return vc.leafI(rt, k, false)
+		case "f64":
+			return vc.leafF(rt, k, false)
+		case "regstruct", "svstruct", "structblank":
+			v := vc.leafS(rt, k, false, false)
+			v.I = 5
+			return v
+		case "safe", "unsafe":
+			return &Val{K: k, Sub: []*Val{vc.leafS(rt, pick(rt, "wk", []string{"str", "sstringer", "regstringer"}), false, false)}}
+		case "embsafe":
+			v := vc.leafS(rt, k, true, false)
+			v.I = 7
+			return v
+		}
+		return vc.leafS(rt, k, false, false)
+	}
+	k0 := pick(rt, "k0", c05TypedKinds)
+	k1 := k0
+	if s.Shape == "map" || s.Shape == "struct" || s.Shape == "pstruct" {
+		k1 = pick(rt, "k1", c05TypedKinds)
+	}
+	s.Leaves = []*Val{leaf(k0), leaf(k1)}
+	fc := &fmtConfig{noStar: true, noZeroMinus: true, noW: true, noTp: true, noHugeNumbers: true}
+	s.Dir = fc.genDirective(rt)
+	// (Go syntax names the static types)
+	s.Dir.Flags = strings.ReplaceAll(s.Dir.Flags, "#", "")
+	if string(s.Dir.Verb) == "%" {
+		s.Dir.Verb = B("v")
+	}
+	return s
+}
+
+func TestC05Typed(t *testing.T) {
+	rapidCheck(t, "C05Typed", func(rt *rapid.T) interface{} { return genC05Typed(rt) })
+}
